@@ -5,6 +5,7 @@
    the cache discipline does not depend on what the views compute. *)
 From Coq Require Import List QArith Lia Arith Bool.
 From NV Require Import Scalar.Ops Model.Common Model.Knots Model.Weights Model.Equal Model.Obj Model.ObjRun Proofs.ObjR.
+From NV Require Import Proofs.ObjTessR.
 Import ListNotations.
 Local Open Scope nat_scope.
 
@@ -165,3 +166,109 @@ Example C12_ex_container :
   let w := wrun Qops evQ bbQ tsQ (mkWorld [] [] 0) ops in
   length (c_eval (contr w 0)) = 8%nat /\ c_eval (contr w 0) = cderive Qops evQ w (contr w 0).
 Proof. vm_compute. split; reflexivity. Qed.
+
+(* ====================== round 2 (Proofs/ObjTessR.v): container vertices / faces aggregates ====================== *)
+
+Local Open Scope nat_scope.
+
+Section TessStatements.
+Context {T : Type} (K : ops T).
+Variable f_ev : @defn T -> list (list T).
+Variable f_bbox : list (list T) -> list T * list T.
+Variable f_tess : nat -> @defn T -> list (list T) -> list (list T) * list (list nat).
+Notation ginv := (ginv K f_ev f_bbox f_tess).
+Notation CTinv := (CTinv K f_ev f_tess).
+Notation wstep := (wstep K f_ev f_bbox f_tess).
+Notation wrun := (wrun K f_ev f_bbox f_tess).
+Notation ctderive := (ctderive K f_ev f_tess).
+Notation all_safe2 := (all_safe2 K f_ev f_bbox f_tess).
+
+(* [G, with side condition] SurfaceContainer vertices / faces: CTinv = the sampled-points invariant Cinv AND for every container
+   the vertices/faces cache is empty or equals ctderive = the aggregate (agg: vertices concatenated, faces shifted by the
+   vertex offset) of its elements' spacing-1 tessellations at the container's density.  safe2 = ObjR.safe and the same for
+   the tessellation caches: the operation does not modify a geometry held by ANOTHER container whose cache is filled. *)
+Theorem C12_container_tess_Inv_step : forall (w : @world T) (o : wop), ginv w -> CTinv w -> safe2 w o -> CTinv (fst (wstep w o)).
+Proof. exact (CTinv_wstep K f_ev f_bbox f_tess). Qed.
+
+Theorem C12_container_tess_Inv_reachable : forall ops : list wop,
+  all_safe2 (mkWorld [] [] 0) ops -> CTinv (wrun (mkWorld [] [] 0) ops).
+Proof. intros ops H. apply (CTinv_wrun K f_ev f_bbox f_tess); [apply ginv_init|apply CTinv_init|exact H]. Qed.
+
+(* [G] reading vertices/faces of a container in a state satisfying the invariants returns the aggregate *)
+Theorem C12_container_tess_read_equals_fresh : forall (w : @world T) (j : nat), ginv w -> CTinv w ->
+  snd (c_read_tess K f_ev f_tess w j) = ctderive w (contr w j).
+Proof. exact (c_read_tess_equals_fresh K f_ev f_bbox f_tess). Qed.
+
+(* [G] after ANY safe history: a container's vertices/faces read = vertices of freshly built elements (same definition at the
+   container's density, read through .vertices/.faces) concatenated, faces of element n shifted by the number of vertices
+   of the elements before it (faces_from) *)
+Theorem C12_container_tess_read_reachable : forall (ops : list wop) (j : nat) (ids : list nat),
+  all_safe2 (mkWorld [] [] 0) ops ->
+  let w := wrun (mkWorld [] [] 0) ops in
+  let ms := map (fun i => snd (read_tess f_ev f_tess (fresh (dld K (o_def (geom w i)) 0 (c_delta (contr w j))) ids))) (c_elems (contr w j)) in
+  snd (c_read_tess K f_ev f_tess w j) = (concat (map fst ms), faces_from 0 ms).
+Proof. exact (container_tess_read_reachable K f_ev f_bbox f_tess). Qed.
+
+(* [G] the aggregate in closed form *)
+Theorem C12_container_aggregate_closed_form : forall ms : list (@tessres T),
+  agg ms = (concat (map fst ms), faces_from 0 ms).
+Proof. exact agg_spec. Qed.
+End TessStatements.
+Print Assumptions C12_container_tess_Inv_step.
+Print Assumptions C12_container_tess_Inv_reachable.
+Print Assumptions C12_container_tess_read_equals_fresh.
+Print Assumptions C12_container_tess_read_reachable.
+Print Assumptions C12_container_aggregate_closed_form.
+
+(* ---- executable instance: two bilinear patches in a SurfaceContainer ---- *)
+Definition srfA : @defn Q := mkDef 2 false [1; 1]%nat [[0;0;1;1]; [0;0;1;1]]%Q [[0;0;0]; [0;1;0]; [1;0;0]; [1;1;1]]%Q [2; 2]%nat [1#2; 1#2]%Q.
+Definition srfB : @defn Q := mkDef 2 false [1; 1]%nat [[0;0;1;1]; [0;0;1;1]]%Q [[2;0;0]; [2;1;0]; [3;0;0]; [3;1;5]]%Q [2; 2]%nat [1#2; 1#2]%Q.
+Definition tess_history : list (@wop Q) :=
+  [New srfA; New srfB; NewCont 2 (1#2)%Q; C 0 (CAdd 0); C 0 (CAdd 1); C 0 CReadTess; G 0 ReadTess; C 0 CReadEval;
+   C 0 (CSetSample 4); C 0 CReadTess].
+(* the side condition holds along the history; the cache is the aggregate: 9 + 9 vertices, 8 + 8 faces, the second
+   element's faces start at vertex 9 *)
+Example C12_ex_container_tess :
+  let w := wrun Qops evQ bbQ tsQ (mkWorld [] [] 0) tess_history in
+  all_safe2 Qops evQ bbQ tsQ (mkWorld [] [] 0) tess_history /\
+  c_tess (contr w 0) = Some (ctderive Qops evQ tsQ w (contr w 0)) /\
+  length (fst (ctderive Qops evQ tsQ w (contr w 0))) = 18 /\ length (snd (ctderive Qops evQ tsQ w (contr w 0))) = 16 /\
+  nth 8 (snd (ctderive Qops evQ tsQ w (contr w 0))) [] = [9; 12; 13].
+Proof.
+  intro w. split.
+  - unfold tess_history. cbn [all_safe2].
+    assert (Hnil : forall (w' : @world Q) o, wfoot w' o = [] -> safe2 w' o).
+    { intros w' o E. split; intros j' _ _ i Hi; rewrite E in Hi; destruct Hi. }
+    assert (Hone : forall (w' : @world Q) co, length (w_conts w') = 1 -> safe2 w' (C 0 co)).
+    { intros w' co L. assert (D : forall j', j' <> 0 -> contr w' j' = dummy_cont).
+      { intros [|j'] Hj; [congruence|]. unfold contr. apply nth_overflow. rewrite L. lia. }
+      split; intros j' Hj H; exfalso; apply H; rewrite (D j' Hj); reflexivity. }
+    repeat (split; [first [apply Hnil; reflexivity | apply Hone; reflexivity]|]). exact I.
+  - vm_compute. repeat split; reflexivity.
+Qed.
+
+(* the known finding shows on the vertices/faces cache as well: an edit made directly to an element after the container was
+   tessellated leaves the container's aggregate stale; it is exactly what safe2 excludes *)
+Definition tess_alias_history : list (@wop Q) := [New srfA; NewCont 2 (1#2)%Q; C 0 (CAdd 0); C 0 CReadTess].
+Definition tess_alias_edit : @wop Q := G 0 (SetCtrlpts [[0;0;7]; [0;1;0]; [1;0;0]; [1;1;1]]%Q [2; 2]%nat).
+Theorem C12_container_tess_alias_refuted :
+  let w := wrun Qops evQ bbQ tsQ (mkWorld [] [] 0) tess_alias_history in
+  ginv Qops evQ bbQ tsQ w /\ CTinv Qops evQ tsQ w /\ ~ safe2 w tess_alias_edit /\
+  ~ CTinv Qops evQ tsQ (fst (wstep Qops evQ bbQ tsQ w tess_alias_edit)).
+Proof.
+  intro w. assert (Hg : ginv Qops evQ bbQ tsQ w) by (apply ginv_wrun; apply ginv_init).
+  assert (HC : CTinv Qops evQ tsQ w).
+  { apply (CTinv_wrun Qops evQ bbQ tsQ); [apply ginv_init|apply CTinv_init|].
+    unfold tess_alias_history. cbn [all_safe2].
+    assert (Hnil : forall (w' : @world Q) o, wfoot w' o = [] -> safe2 w' o).
+    { intros w' o E. split; intros j' _ _ i Hi; rewrite E in Hi; destruct Hi. }
+    assert (Hone : forall (w' : @world Q) co, length (w_conts w') = 1 -> safe2 w' (C 0 co)).
+    { intros w' co L. assert (D : forall j', j' <> 0 -> contr w' j' = dummy_cont).
+      { intros [|j'] Hj; [congruence|]. unfold contr. apply nth_overflow. rewrite L. lia. }
+      split; intros j' Hj H; exfalso; apply H; rewrite (D j' Hj); reflexivity. }
+    repeat (split; [first [apply Hnil; reflexivity | apply Hone; reflexivity]|]). exact I. }
+  split; [exact Hg|split; [exact HC|split]].
+  - intros [_ S]. apply (S 0 I) with (i := 0); [vm_compute; discriminate|vm_compute; auto|vm_compute; auto].
+  - intros [_ X]. specialize (X 0). destruct X as [X|X]; vm_compute in X; discriminate.
+Qed.
+Print Assumptions C12_container_tess_alias_refuted.
